@@ -770,6 +770,63 @@ func runCase(c map[string]any) any {
 					fw = append(fw, f)
 				}
 				st["fw"] = fw
+				// SetCausal calls inside the pass (gemma3 calls it before every layer): after each call the mask that Get returns
+				// is decoded again for every cache and every layer
+				if calls, ok := op["sc"].([]any); ok && !reserve {
+					var sc []any
+					for _, cl := range calls {
+						ex := ints(cl)
+						var per []any
+						for _, s := range w.subs {
+							r := map[string]any{}
+							first := ""
+							for li, l := range s.layers {
+								w.top.SetLayer(l)
+								if w.wrap != nil {
+									w.wrap.SetLayerType(layerType(l))
+								}
+								s.c.SetCausal(ctx, kvcache.CausalOptions{Except: ex})
+								_, _, m := w.top.Get(ctx)
+								ctx.Compute()
+								mt := m.(*tensor)
+								_, mn, _ := s.c.C06Cur()
+								length, rows := mt.Dim(0), mt.Dim(1)
+								mv := mt.read()
+								vis := make([][]int, len(seqs))
+								padok := true
+								for i := 0; i < rows; i++ {
+									for j := 0; j < length; j++ {
+										x := mv[i*length+j]
+										switch {
+										case x == 0:
+											if i < len(seqs) {
+												vis[i] = append(vis[i], mn+j)
+											} else {
+												padok = false
+											}
+										case math.IsInf(float64(x), -1):
+										default:
+											w.anomaly(fmt.Sprintf("mask value %v", x))
+										}
+									}
+									if i < len(seqs) && vis[i] == nil {
+										vis[i] = []int{}
+									}
+								}
+								sig := fmt.Sprint(vis, length, rows, padok)
+								if li == 0 {
+									r["vis"], r["length"], r["rows"], r["padok"] = vis, length, rows, padok
+									first = sig
+								} else if sig != first {
+									r["layerdiff"] = true
+								}
+							}
+							per = append(per, r)
+						}
+						sc = append(sc, per)
+					}
+					st["sc"] = sc
+				}
 				ctx.Close()
 				if len(moves) > 0 {
 					st["moves"] = moves
